@@ -239,7 +239,7 @@ proof fn pop_step<M: Model>(m: M, g: Gen, st: StMap<M::State>, pth: PthMap<M::St
         gen_inv(m, g, st, pth), pend_inv(m, g, st, pth, p), queue_ok(p), eval_order_ok(ev, p), overflow_ok(p, b),
     ensures
         job_ok(m, g, st, pth, p.last()),
-        key_ok(m, g, st, pth, p.last().1),
+        fp_of(st[p.last().1]) == p.last().1, pth[p.last().1].len() > 0, pth[p.last().1].last() == st[p.last().1],
         pend_inv(m, g, st, pth, p.drop_last()),
         queue_ok(p.drop_last()),
         span_ok(p.drop_last(), p.last().3.get() as int),
@@ -256,7 +256,7 @@ proof fn pop_step<M: Model>(m: M, g: Gen, st: StMap<M::State>, pth: PthMap<M::St
 // the four parts of pop_step, one per group of predicates (each reveals only what it needs)
 proof fn pop_pend_part<M: Model>(m: M, g: Gen, st: StMap<M::State>, pth: PthMap<M::State>, p: Seq<Job<M::State>>)
     requires p.len() > 0, gen_inv(m, g, st, pth), pend_inv(m, g, st, pth, p)
-    ensures job_ok(m, g, st, pth, p.last()), key_ok(m, g, st, pth, p.last().1), pend_inv(m, g, st, pth, p.drop_last())
+    ensures job_ok(m, g, st, pth, p.last()), fp_of(st[p.last().1]) == p.last().1, pth[p.last().1].len() > 0, pth[p.last().1].last() == st[p.last().1], pend_inv(m, g, st, pth, p.drop_last())
 {
     reveal(pend_inv);
     let q = p.drop_last();
@@ -746,6 +746,13 @@ proof fn tested_update<M: Model>(m: M, d0: Disc, dx: Disc, d1: Disc, g0: Gen, st
         if x == k { assert(passes(m, i, s)); } else { assert(g0.contains_key(x)); assert(passes(m, i, st0[x])); }
     }
 }
+proof fn extends_key<S>(g0: Gen, st0: StMap<S>, pth0: PthMap<S>, g1: Gen, st1: StMap<S>, pth1: PthMap<S>, k: Fingerprint)
+    requires extends(g0, st0, pth0, g1, st1, pth1), g0.contains_key(k)
+    ensures g1.contains_key(k), g1[k] == g0[k], st1[k] == st0[k], pth1[k] == pth0[k]
+{ reveal(extends); }
+proof fn children_refl(g: Gen, k: Fingerprint)
+    ensures children_of(g, g, k)
+{ reveal(children_of); }
 proof fn extends_refl<S>(g: Gen, st: StMap<S>, pth: PthMap<S>)
     ensures extends(g, st, pth, g, st, pth)
 { reveal(extends); }
